@@ -24,7 +24,7 @@ MANIFEST = {
                 "that the statement decomposes over the placement and never moves a row, and emits the expected tables and affected "
                 "count; each case is replayed on the real plan.BuildPlan / UpdatePlan / DeletePlan / InsertPlan.ExecuteIn / "
                 "MergeExecResult with a fake backend that applies the rewritten per-shard statements; tables afterwards and "
-                "AffectedRows must equal TLC's expectation and sharding-column assignments must be rejected in every spelling.",
+                "AffectedRows must equal TLC's expectation and sharding-column assignments must be rejected in every spelling (plain, alias, back-quoted, and - for every such case - the assigned column qualified by the table name and by schema.table).",
         "design_ref": "DESIGN.md section 5 C05, section 4.1 Relational",
     },
     "level_note": "Schema t(id, g, v), literal assignments only, WHERE of at most two leaves (comparison, IS [NOT] NULL, [NOT] IN of two "
